@@ -107,6 +107,9 @@ pub struct FsState {
     pub raw_entries: Vec<(String, Vec<u8>)>,
     /// the kind of the error the failing call in progress returns, if not the usual one for its operation
     pub next_err_kind: Option<io::ErrorKind>,
+    /// files that cannot be deleted (immutable, or on a read-only mount): `remove_file` fails for them, always. Not a
+    /// scripted fault: a property of the environment, like the rest of the directory's contents
+    pub undeletable: BTreeSet<String>,
 }
 
 pub fn norm(path: &Path) -> String {
@@ -175,6 +178,7 @@ impl SimFs {
                 dead: false,
                 raw_entries: Vec::new(),
                 next_err_kind: None,
+                undeletable: BTreeSet::new(),
             })),
             on_op: None,
             fault_fn: None,
@@ -462,6 +466,10 @@ impl SimFilesystem for SimFs {
             Decision::Fail => {
                 self.end(index, OpKind::Remove, &p, false, 0, Some("io_error"), false);
                 Err(self.err_for(&OpKind::Remove))
+            }
+            _ if self.lock().undeletable.contains(&p) => {
+                self.end(index, OpKind::Remove, &p, false, 0, Some("immutable_file"), false);
+                Err(io::Error::new(io::ErrorKind::PermissionDenied, "operation not permitted"))
             }
             d => {
                 let removed = {
